@@ -79,8 +79,8 @@ MODELS = {
             'thorough': [model(5, 5, programs=[[ROOT_ATTACH], [ROOT_ATTACH, ROOT_ATTACH]]),
                          model(6, 4, programs=[[ROOT_ATTACH]])]},
     'C05': {'quick': [model(4, 3, toks=(PLAIN, TOK_HD), edges=('--', 'HD'), programs=CROSS)],
-            'thorough': [model(5, 4, toks=(PLAIN, TOK_HD), edges=('--', 'HD'), programs=CROSS[:1]),
-                         model(4, 4, MaxChain=2, toks=(PLAIN, TOK_HD), edges=('--', 'HD'), programs=CROSS)]},
+            'thorough': [model(5, 3, toks=(PLAIN, TOK_HD), edges=('--', 'HD'), programs=CROSS[:1]),
+                         model(4, 3, MaxChain=2, toks=(PLAIN, TOK_HD), edges=('--', 'HD'), programs=CROSS)]},
     'C13': {'quick': [model(4, 2, toks=(PLAIN, TOK_COMMA, TOK_QUOTE), programs=PUNCTP[:2] + PUNCTP[3:]),
                       model(3, 3, MaxChain=2, toks=(PLAIN, TOK_COMMA, TOK_QUOTE, TOK_REL), programs=PUNCTP)],
             'thorough': [model(5, 3, toks=(PLAIN, TOK_COMMA, TOK_QUOTE), programs=PUNCTP[:2] + PUNCTP[3:]),
